@@ -56,12 +56,17 @@ structure SysLe (t : Tid) (s s' : Sys) : Prop where
   cfgs : s'.cfgs = s.cfgs
   gran : s'.gran = s.gran
   ordered : s'.ordered = s.ordered
+  /-- the ghost gate log only grows -/
+  gate : ∀ e ∈ s.gate, e ∈ s'.gate
+  /-- threads created by the step start at `begin` (the slot `t` itself is exempt: an external
+      event creates the thread in slot `t`) -/
+  tnew : ∀ u, s.threads.length ≤ u → u < s'.threads.length → (s'.thr u).pc = .begin ∨ u = t
 
 variable {t : Tid}
 
 theorem SysLe.refl (s : Sys) : SysLe t s s :=
   ⟨Nat.le_refl _, fun i _ => Inst.Le.refl _, fun i h1 h2 => absurd h2 (by omega), Nat.le_refl _,
-   fun _ _ _ => rfl, Or.inl rfl, fun h => ⟨h, rfl⟩, rfl, rfl, rfl⟩
+   fun _ _ _ => rfl, Or.inl rfl, fun h => ⟨h, rfl⟩, rfl, rfl, rfl, fun _ h => h, fun u h1 h2 => absurd h2 (by omega)⟩
 
 theorem SysLe.trans {a b c : Sys} (h1 : SysLe t a b) (h2 : SysLe t b c) : SysLe t a c where
   len := Nat.le_trans h1.len h2.len
@@ -94,6 +99,15 @@ theorem SysLe.trans {a b c : Sys} (h1 : SysLe t a b) (h2 : SysLe t b c) : SysLe 
   cfgs := h2.cfgs.trans h1.cfgs
   gran := h2.gran.trans h1.gran
   ordered := h2.ordered.trans h1.ordered
+  gate := fun e he => h2.gate e (h1.gate e he)
+  tnew := fun u hu hc => by
+    by_cases hb : u < b.threads.length
+    · rcases h1.tnew u hu hb with e | e
+      · by_cases hut : u = t
+        · exact Or.inr hut
+        · left; rw [h2.tframe u hb hut]; exact e
+      · exact Or.inr e
+    · exact h2.tnew u (Nat.le_of_not_lt hb) hc
 
 /-- the parts of the state the relation looks at are literally unchanged -/
 structure Same (s s' : Sys) : Prop where
@@ -104,17 +118,19 @@ structure Same (s s' : Sys) : Prop where
   cfgs : s'.cfgs = s.cfgs
   gran : s'.gran = s.gran
   ordered : s'.ordered = s.ordered
+  gate : s'.gate = s.gate
 
 theorem SysLe.of_same {s s' : Sys} (h : Same s s') : SysLe t s s' := by
   refine ⟨by rw [h.insts]; exact Nat.le_refl _, fun i _ => ?_, fun i h1 h2 => absurd h2 (by rw [h.insts]; omega),
-    by rw [h.threads]; exact Nat.le_refl _, fun u _ _ => ?_, Or.inl ?_, fun hx => ?_, h.cfgs, h.gran, h.ordered⟩
+    by rw [h.threads]; exact Nat.le_refl _, fun u _ _ => ?_, Or.inl ?_, fun hx => ?_, h.cfgs, h.gran, h.ordered,
+    fun e he => by rw [h.gate]; exact he, fun u h1 h2 => absurd h2 (by rw [h.threads]; omega)⟩
   · unfold Sys.inst; rw [h.insts]; exact Inst.Le.refl _
   · unfold Sys.thr; rw [h.threads]
   · unfold Sys.thr; rw [h.threads]
   · rw [h.exitCodeSet, h.exitCode]; exact ⟨hx, rfl⟩
 
 /-- `same`: the update touches none of the observed parts (closed by `rfl` componentwise) -/
-macro "same" : tactic => `(tactic| exact ⟨rfl, rfl, rfl, rfl, rfl, rfl, rfl⟩)
+macro "same" : tactic => `(tactic| exact ⟨rfl, rfl, rfl, rfl, rfl, rfl, rfl, rfl⟩)
 
 /-! ### primitives -/
 
@@ -134,7 +150,8 @@ theorem inst_setInst (s : Sys) (i j : IId) (f : Inst → Inst) (hj : j < s.insts
 theorem setInst_le (s : Sys) (i : IId) (f : Inst → Inst) (hf : ∀ x, Inst.Le x (f x)) :
     SysLe t s (s.setInst i f) := by
   refine ⟨by simp [Sys.setInst], fun j hj => ?_, fun j h1 h2 => absurd h2 (by simp [Sys.setInst]; omega),
-    Nat.le_refl _, fun _ _ _ => rfl, Or.inl rfl, fun h => ⟨h, rfl⟩, rfl, rfl, rfl⟩
+    Nat.le_refl _, fun _ _ _ => rfl, Or.inl rfl, fun h => ⟨h, rfl⟩, rfl, rfl, rfl, fun _ h => h,
+    fun u h1 h2 => absurd h2 (by simp [Sys.setInst]; omega)⟩
   rw [inst_setInst _ _ _ _ hj]
   split
   · exact hf _
@@ -142,6 +159,11 @@ theorem setInst_le (s : Sys) (i : IId) (f : Inst → Inst) (hf : ∀ x, Inst.Le 
 
 theorem setPs_le (s : Sys) (n f) : SysLe t s (s.setPs n f) := SysLe.of_same (by same)
 theorem emit_le (s : Sys) (o) : SysLe t s (s.emit o) := SysLe.of_same (by same)
+
+theorem note_le (s : Sys) (e : GateEv) : SysLe t s (s.note e) :=
+  ⟨Nat.le_refl _, fun i _ => Inst.Le.refl _, fun i h1 h2 => absurd h2 (by simp [Sys.note]; omega), Nat.le_refl _,
+   fun _ _ _ => rfl, Or.inl rfl, fun h => ⟨h, rfl⟩, rfl, rfl, rfl, fun x hx => List.mem_cons_of_mem _ hx,
+   fun u h1 h2 => absurd h2 (by simp [Sys.note]; omega)⟩
 
 theorem thr_setPc_ne (s : Sys) (t u : Tid) (pc : Pc) (h : u ≠ t) : (s.setPc t pc).thr u = s.thr u := by
   unfold Sys.thr Sys.setPc
@@ -157,13 +179,19 @@ theorem thr_setPc_kind (s : Sys) (t : Tid) (pc : Pc) : ((s.setPc t pc).thr t).ki
 theorem setPc_le (s : Sys) (t pc) : SysLe t s (s.setPc t pc) := by
   refine ⟨Nat.le_refl _, fun i _ => Inst.Le.refl _, fun i h1 h2 => absurd h2 (by simp [Sys.setPc]; omega),
     by simp [Sys.setPc], fun u _ hne => thr_setPc_ne s t u pc hne, Or.inl (thr_setPc_kind s t pc),
-    fun h => ⟨h, rfl⟩, rfl, rfl, rfl⟩
+    fun h => ⟨h, rfl⟩, rfl, rfl, rfl, fun _ h => h, fun u h1 h2 => absurd h2 (by simp [Sys.setPc]; omega)⟩
 
 theorem spawn_le (s : Sys) (k) : SysLe t s (s.spawn k) := by
   refine ⟨Nat.le_refl _, fun i _ => Inst.Le.refl _, fun i h1 h2 => absurd h2 (by simp [Sys.spawn]; omega),
-    by simp [Sys.spawn], fun u hu _ => ?_, ?_, fun h => ⟨h, rfl⟩, rfl, rfl, rfl⟩
+    by simp [Sys.spawn], fun u hu _ => ?_, ?_, fun h => ⟨h, rfl⟩, rfl, rfl, rfl, fun _ h => h, fun u h1 h2 => ?_⟩
   · unfold Sys.thr Sys.spawn
     simp [List.getD_eq_getElem?_getD, List.getElem?_append_left hu]
+  rotate_left
+  · left
+    have : u = s.threads.length := by simp [Sys.spawn] at h2; omega
+    subst this
+    unfold Sys.thr Sys.spawn
+    simp [List.getD_eq_getElem?_getD]
   · by_cases ht : t < s.threads.length
     · left
       unfold Sys.thr Sys.spawn
@@ -219,7 +247,8 @@ theorem recordExit_le (s : Sys) (c) : SysLe t s (recordExit s c) := by
   · rename_i h
     peel (emit_le _ _)
     refine ⟨Nat.le_refl _, fun i _ => Inst.Le.refl _, fun i h1 h2 => absurd h2 (by simp; omega), Nat.le_refl _,
-      fun _ _ _ => rfl, Or.inl rfl, fun hx => absurd hx h, rfl, rfl, rfl⟩
+      fun _ _ _ => rfl, Or.inl rfl, fun hx => absurd hx h, rfl, rfl, rfl, fun _ h => h,
+      fun u h1 h2 => absurd h2 (by simp; omega)⟩
 
 theorem onProcessEnd_le (s : Sys) (i st) : SysLe t s (onProcessEnd s i st) := by
   unfold onProcessEnd
@@ -242,7 +271,7 @@ theorem decideRestart_le (s : Sys) (i) : SysLe t s (decideRestart s i).2 := setI
 
 theorem append_le (s : Sys) (x : Inst) (hx : EndedI x) : SysLe t s { s with insts := s.insts ++ [x] } := by
   refine ⟨by simp, fun j hj => ?_, fun j h1 h2 => ?_, Nat.le_refl _, fun _ _ _ => rfl, Or.inl rfl,
-    fun h => ⟨h, rfl⟩, rfl, rfl, rfl⟩
+    fun h => ⟨h, rfl⟩, rfl, rfl, rfl, fun _ h => h, fun u h1 h2 => absurd h2 (by simp; omega)⟩
   · have : ({ s with insts := s.insts ++ [x] } : Sys).inst j = s.inst j := by
       unfold Sys.inst; simp [List.getD_eq_getElem?_getD, List.getElem?_append_left hj]
     rw [this]; exact Inst.Le.refl _
@@ -285,7 +314,9 @@ theorem doSkip_le (s : Sys) (t i) : SysLe t s (doSkip s t i) := by
 theorem afterDeps_le (s : Sys) (t) : SysLe t s (afterDeps s t) := setPc_le _ _ _
 
 theorem lookupRunning_le (s : Sys) (t i k c r) : SysLe t s (lookupRunning s t i k c r) := by
-  unfold lookupRunning; split <;> exact (emit_le _ _).then (setPc_le _ _ _)
+  unfold lookupRunning; split
+  · exact (emit_le _ _).then (setPc_le _ _ _)
+  · exact ((note_le _ _).then (emit_le _ _)).then (setPc_le _ _ _)
 
 theorem depStep_le (s : Sys) (t i h r) : SysLe t s (depStep s t i h r) := by
   unfold depStep
@@ -388,14 +419,14 @@ theorem armDepLookup_le (s : Sys) (t d c r) : SysLe t s (armDepLookup s t d c r)
 theorem armWaitDone_le (s : Sys) (t i d ok r) : SysLe t s (armWaitDone s t i d ok r) := by
   unfold armWaitDone; split
   · exact doSkip_le _ _ _
-  · exact setPc_le _ _ _
+  · exact (note_le _ _).then (setPc_le _ _ _)
 theorem armWaitReady_le (s : Sys) (t i d r) : SysLe t s (armWaitReady s t i d r) := by
   unfold armWaitReady; split
-  · exact setPc_le _ _ _
+  · exact (note_le _ _).then (setPc_le _ _ _)
   · exact doSkip_le _ _ _
 theorem armWaitLogReady_le (s : Sys) (t i d r) : SysLe t s (armWaitLogReady s t i d r) := by
   unfold armWaitLogReady; split
-  · exact setPc_le _ _ _
+  · exact (note_le _ _).then (setPc_le _ _ _)
   · exact doSkip_le _ _ _
 theorem armProcSkipped_le (s : Sys) (t i) : SysLe t s (armProcSkipped s t i) := by
   unfold armProcSkipped; split
@@ -440,6 +471,7 @@ theorem stepProc_le (s : Sys) (t i h pc) : SysLe t s (stepProc s t i h pc) := by
     first
     | exact SysLe.refl _
     | exact setPc_le _ _ _
+    | exact (note_le _ _).then (setPc_le _ _ _)
     | exact depStep_le _ _ _ _ _
     | exact lookupRunning_le _ _ _ _ _ _
     | exact armDepLookup_le _ _ _ _ _
